@@ -120,8 +120,10 @@ impl ReplicationFetcher {
         // Remove any outdated entries in `to_be_fetched`
         self.remove_stored_keys(locally_stored_keys);
 
-        // Special case for single new key
-        if new_incoming_keys.len() == 1 {
+        // Special case for single new key: a fresh record replicated on its own.
+        // A periodic multi-record list with just one key new to us shall still
+        // go through the distance range check below.
+        if total_incoming_keys == 1 && new_incoming_keys.len() == 1 {
             let (record_address, record_type) = new_incoming_keys[0].clone();
 
             let new_data_key = (record_address.to_record_key(), record_type);
